@@ -1,5 +1,5 @@
 (** C18 proofs: the index's graph queries compute the graph specification. *)
-From Verif Require Import Base.Prelude Base.DagI Model.C18.
+From Verif Require Import Base.Prelude Base.DagI Gen.Tables Model.C18.
 From Coq Require Import Lia Arith.
 Local Open Scope nat_scope.
 
@@ -1051,7 +1051,7 @@ Qed.
 Lemma squash_segs_flat : forall files top, flat (squash_segs top files) = flat (top :: files).
 Proof.
   induction files as [|f rest IH]; intros top; cbn [squash_segs]; [reflexivity|].
-  destruct (2 * length top <? length f); [reflexivity|].
+  destruct (C18_SQUASH_FACTOR * length top <? length f); [reflexivity|].
   rewrite IH, !flat_cons. now rewrite app_assoc.
 Qed.
 
@@ -1059,19 +1059,20 @@ Lemma squash_segs_sizes : forall files top,
   map (@length sentry) (squash_segs top files) = squash_sizes (length top) (map (@length sentry) files).
 Proof.
   induction files as [|f rest IH]; intros top; cbn [squash_segs squash_sizes map]; [reflexivity|].
-  destruct (2 * length top <? length f); [reflexivity|].
+  destruct (C18_SQUASH_FACTOR * length top <? length f); [reflexivity|].
   rewrite IH, app_length. f_equal. lia.
 Qed.
 
 Lemma squash_sizes_sum : forall files n, list_sum (squash_sizes n files) = n + list_sum files.
 Proof.
   induction files as [|f rest IH]; intros n; cbn [squash_sizes]; [simpl; lia|].
-  destruct (2 * n <? f); [simpl; lia|]. rewrite IH. simpl. lia.
+  destruct (C18_SQUASH_FACTOR * n <? f); [simpl; lia|]. rewrite IH. simpl. lia.
 Qed.
 
 Lemma squash_sizes_top : forall files n x y r, squash_sizes n files = x :: y :: r -> 2 * x < y.
 Proof.
   induction files as [|f rest IH]; intros n x y r; cbn [squash_sizes]; [discriminate|].
+  change C18_SQUASH_FACTOR with 2%nat.
   destruct (Nat.ltb_spec (2 * n) f) as [L|L].
   - intros H. injection H as <- <- _. assumption.
   - apply IH.
@@ -1081,7 +1082,7 @@ Lemma squash_sizes_head : forall files n x r, squash_sizes n files = x :: r -> n
 Proof.
   induction files as [|f rest IH]; intros n x r; cbn [squash_sizes].
   - intros H. injection H. lia.
-  - destruct (2 * n <? f); [intros H; injection H; lia|]. intros H. apply IH in H. lia.
+  - destruct (C18_SQUASH_FACTOR * n <? f); [intros H; injection H; lia|]. intros H. apply IH in H. lia.
 Qed.
 
 (** the checker's meaning for a recorded transaction *)
